@@ -918,7 +918,7 @@ func (c *Ctx) findSepGuard() *sepGuard {
 				return
 			}
 			cal := call.Call.StaticCallee()
-			if cal == g.method {
+			if cal == g.method || forwardsByteTo(cal, g.method) {
 				guardCall = call
 				return
 			}
@@ -1144,6 +1144,31 @@ func (g *sepGuard) covers(mode string, x, y *lexd) bool {
 				return false
 			}
 		}
+	}
+	return true
+}
+
+// forwardsByteTo: f is an unexported method of the writer with a single byte parameter that, on every path and before
+// anything else is emitted, hands that very parameter to target (`func (cw) before(next byte) { cw.a(next); cw.b(next) }`).
+func forwardsByteTo(f, target *ssa.Function) bool {
+	if f == nil || target == nil || f == target || f.Blocks == nil || f.Signature.Recv() == nil || len(f.Params) != 2 || !isByte(f.Params[1].Type()) {
+		return false
+	}
+	if obj := f.Object(); obj == nil || obj.Exported() {
+		return false
+	}
+	var tc *ssa.Call
+	allInstrs(f, func(_ *ssa.BasicBlock, _ int, in ssa.Instruction) {
+		if call, ok := in.(*ssa.Call); ok && call.Call.StaticCallee() == target && len(call.Call.Args) == 2 && call.Call.Args[0] == ssa.Value(f.Params[0]) && call.Call.Args[1] == ssa.Value(f.Params[1]) {
+			tc = call
+		}
+	})
+	if tc == nil {
+		return false
+	}
+	// unconditional: the call sits in the entry block, and every return is reached through it
+	if tc.Block() != f.Blocks[0] {
+		return false
 	}
 	return true
 }
